@@ -1,9 +1,9 @@
 // Mesh kinds (C19): histories of operations on one Mesh1D<T,T> / Mesh2D<T>.
 //   mesh.hist1 <nvars> <nodes> (<op> <args> ;)*
 //   mesh.hist2 <nvars> <xnodes> <ynodes> (<op> <args> ;)*
-// After construction and after every op: the op's result (if any), P<class> if it panicked, then the
-// whole state read back through the public API.  An op that may have written part of its effect
-// before panicking ends the history (the model does the same).
+// After every op: the op's result (if any) or P<class> if it panicked; the op `dump` reads the whole
+// state back through the public API.  An op that may have written part of its effect before
+// panicking ends the history (the model does the same).
 // Nodes of a Mesh2D are f64 in the library; they are carried exactly in the element type of the
 // run (a dyadic rational in the exact tier).  Only the public API of ohsl is used.
 #![allow(unused_imports, dead_code)]
@@ -120,6 +120,7 @@ fn step1<T: Elt>(m: &mut Mesh1D<T, T>, op: &str, a: &mut Args, out: &mut Out) {
         "idxelem" => { let k = a.usize(); let var = a.usize(); let x = a.s::<T>(); m[k][var] = x; }
         "coord" => { let k = a.usize(); let x = m.coord(k); out.s(&x); }
         "nnodes" => { out.usize(m.nnodes()); }
+        "dump" => { dump1(m, out); }
         "interp" => { let x = a.f64(); let v = as_f64_1(m).get_interpolated_vars(x); out.v(&v); }
         "trap" => { let var = a.usize(); let s = as_f64_1(m).trapezium(var); out.f(s); }
         "file" => { let prec = a.usize(); let path = a.word(); let nv2 = a.usize(); let nodes2 = a.v::<f64>();
@@ -135,7 +136,8 @@ fn step1<T: Elt>(m: &mut Mesh1D<T, T>, op: &str, a: &mut Args, out: &mut Out) {
             mf.output(path, prec);
             emit_file(path, out);
             mf.read(path);
-            let _ = std::fs::remove_file(path); }
+            let _ = std::fs::remove_file(path);
+            dump1(m, out); }
         _ => panic!("harness: unknown mesh1 op {}", op),
     }
 }
@@ -158,6 +160,7 @@ fn step2<T: Elt>(m: &mut Mesh2D<T>, op: &str, a: &mut Args, out: &mut Out) {
         "coord" => { let i = a.usize(); let j = a.usize(); let (x, y) = m.coord(i, j);
             from_f64::<T>(x).emit(out); from_f64::<T>(y).emit(out); }
         "nnodes" => { let (nx, ny) = m.nnodes(); out.usize(nx); out.usize(ny); }
+        "dump" => { dump2(m, out); }
         "trap" => { let var = a.usize(); let s = as_f64_2(m).trapezium(var); out.f(s); }
         "sqtrap" => { let var = a.usize(); let s = as_f64_2(m).square_trapezium(var); out.f(s); }
         "file" => { let prec = a.usize(); let path = a.word();
@@ -187,7 +190,6 @@ pub fn run<T: Elt>(kind: &str, a: &mut Args, out: &mut Out) {
             let nvars = a.usize();
             let nodes = a.v::<T>();
             let mut m = Mesh1D::<T, T>::new(nodes, nvars);
-            dump1(&m, out);
             while a.more() {
                 let op = a.word();
                 let p = guarded(|| step1(&mut m, op, a, out));
@@ -196,7 +198,6 @@ pub fn run<T: Elt>(kind: &str, a: &mut Args, out: &mut Out) {
                     out.toks.push(format!("P{}", cls));
                     if ends1(op) { break; }
                 }
-                dump1(&m, out);
             }
         }
         "mesh.hist2" => {
@@ -204,7 +205,6 @@ pub fn run<T: Elt>(kind: &str, a: &mut Args, out: &mut Out) {
             let xs = a.v::<T>();
             let ys = a.v::<T>();
             let mut m = Mesh2D::<T>::new(nodes_f64(&xs), nodes_f64(&ys), nvars);
-            dump2(&m, out);
             while a.more() {
                 let op = a.word();
                 let p = guarded(|| step2(&mut m, op, a, out));
@@ -213,7 +213,6 @@ pub fn run<T: Elt>(kind: &str, a: &mut Args, out: &mut Out) {
                     out.toks.push(format!("P{}", cls));
                     if ends2(op) { break; }
                 }
-                dump2(&m, out);
             }
         }
         _ => panic!("harness: unknown kind {}", kind),
